@@ -123,14 +123,55 @@ Proof. exact global_untouched. Qed.
 Print Assumptions C13_global_untouched.
 
 (* docutils settings strings: --myst-<f>=<s> gives exactly the configuration of the constructor
-   called with the decoded value (same acceptance, same normal form); [y] is yaml.safe_load(s) *)
+   called with the decoded value (same acceptance, same normal form); [y] is yaml.safe_load(s);
+   [optparse_rules] is the if-chain of _attr_to_optparse_option REGENERATED from parsers/docutils_.py *)
 Theorem C13_docutils_strings_equal : forall imp f s y, In f fields -> f_omit_docutils f = false ->
-  docutils_config (E_of imp) fields [(f_name f, s, y)] =
-  (do k <- optparse_kind f; do v <- decode k s y; mk_config (E_of imp) fields [(f_name f, v)]).
+  docutils_config (E_of imp) optparse_rules fields [(f_name f, s, y)] =
+  (do k <- optparse_kind optparse_rules f; do v <- decode k s y;
+   mk_config (E_of imp) fields [(f_name f, v)]).
 Proof.
   intros imp f s y Hin Om. apply docutils_one; try assumption. vm_compute. reflexivity.
 Qed.
 Print Assumptions C13_docutils_strings_equal.
+
+(* the decimal spelling of an int decodes to that int, and every spelling of docutils' boolean table
+   to its bool (case and surrounding white space do not matter) *)
+Theorem C13_docutils_int_roundtrip : forall n y,
+  decode KInt (show n) y = Ok (JInt (Z.of_N n)) /\
+  decode KInt (45 :: show n) y = Ok (JInt (- Z.of_N n)).
+Proof.
+  intros n y. destruct (int_roundtrip n) as [A B]. unfold decode. rewrite A, B. split; reflexivity.
+Qed.
+Print Assumptions C13_docutils_int_roundtrip.
+
+Theorem C13_docutils_bool_spellings : forall y,
+  (forall s b, In (s, b) bool_table -> decode KBool s y = Ok (JBool b)) /\
+  (forall s1 s2, lower_ascii (py_strip s1) = lower_ascii (py_strip s2) -> decode KBool s1 y = decode KBool s2 y).
+Proof.
+  intro y. split.
+  - intros s b Hin. pose proof (bool_spellings y) as H. rewrite forallb_forall in H.
+    specialize (H (s, b) Hin). cbn [fst snd] in H.
+    destruct (decode KBool s y) as [[]|]; try discriminate H. apply Bool.eqb_prop in H. subst. reflexivity.
+  - intros s1 s2. apply bool_decode_insensitive.
+Qed.
+Print Assumptions C13_docutils_bool_spellings.
+
+(* which validator code the regenerated table reaches (bound: the fields and rules present):
+   every combinator of dc_validators.py that the model transcribes and every check_* function is the
+   validator (or part of it) of some field; every docutils-visible field is decided by a rule of the
+   option-string if-chain; the rules that decide no field are those of [known_unused_conds]
+   (Literal choices, tuple[str,str], int | None, Iterable[str] | None) - code the correspondence cannot
+   exercise through any option.  dc_validators.is_callable is not used by any field (the translator
+   stops if it ever is); listed in the evidence under gen.unused_validator_code. *)
+Theorem C13_validator_code_reached :
+  (forall k, In k all_ckinds -> combinator_used fields k = true) /\
+  every_field_decided optparse_rules fields = true /\
+  rules_reached optparse_rules fields = true.
+Proof.
+  split; [|split]; [|vm_compute; reflexivity|vm_compute; reflexivity].
+  apply forallb_forall. vm_compute. reflexivity.
+Qed.
+Print Assumptions C13_validator_code_reached.
 
 (* and the comma separated spelling of a list of clean items (non-empty, no comma, no blank at either
    end) decodes to that list / set *)
